@@ -389,11 +389,32 @@ def ob_save_load():
     eqx = _s.modules["equinox"]
 
     class Model:
-        def __init__(self, n):
+        """ghost pytree: its array leaves and its non-array leaves (python bool / int / float fields such as `inference`, `eps`)
+        are two opaque tokens; None = that part has been filtered out"""
+
+        def __init__(self, n, arrays="own", scalars="own"):
             self.n = n
+            self.arrays = ("arrays", n) if arrays == "own" else arrays
+            self.scalars = ("scalars", n) if scalars == "own" else scalars
 
         def __repr__(self):
-            return f"<model {self.n}>"
+            return f"<model {self.n}: {self.arrays}, {self.scalars}>"
+
+    IS_ARRAY, IS_INEXACT = object(), object()
+
+    def g_filter(m, spec, inverse=False, **k):
+        if not isinstance(m, Model) or spec not in (IS_ARRAY, IS_INEXACT):
+            raise sym.OutOfReach("eqx.filter with a filter specification outside the ghost model")
+        keep_arrays = not inverse
+        return Model(m.n, m.arrays if keep_arrays else None, None if keep_arrays else m.scalars)
+
+    def g_partition(m, spec, **k):
+        return g_filter(m, spec), g_filter(m, spec, inverse=True)
+
+    def g_combine(*ms, **k):
+        a = next((m.arrays for m in ms if m.arrays is not None), None)
+        sc = next((m.scalars for m in ms if m.scalars is not None), None)
+        return Model(ms[0].n, a, sc)
 
     class File:
         def __init__(self, fs, name, mode):
@@ -426,7 +447,7 @@ def ob_save_load():
         def ser(f, m, *a, **k):
             if not isinstance(f, File) or f.closed or f.mode not in ("wb", "ab"):
                 raise sym.Refuted("tree_serialise_leaves needs an open binary file in write mode", None)
-            fs[f.name].append(("leaves", m))
+            fs[f.name].append(("leaves", m.arrays, m.scalars))
 
         def deser(f, like, *a, **k):
             if not isinstance(f, File) or f.closed or f.mode != "rb":
@@ -435,11 +456,18 @@ def ob_save_load():
             if f.pos >= len(rec):
                 raise sym.Refuted("tree_deserialise_leaves reads past the end of the file", None)
             f.pos += 1
-            return ("like", like, rec[f.pos - 1])
+            r = rec[f.pos - 1]
+            # every leaf PRESENT in `like` is replaced by the recorded one; structures must agree
+            if (like.arrays is None) != (r[1] is None) or (like.scalars is None) != (r[2] is None):
+                raise sym.Refuted("tree_deserialise_leaves: the like-tree and the saved tree have different structures", None)
+            return Model(like.n, r[1], r[2])
 
         saved = (T.__dict__.get("open"), eqx.tree_serialise_leaves, eqx.tree_deserialise_leaves)
+        names = ["filter", "partition", "combine", "is_array", "is_inexact_array"]
+        saved_eqx = {n_: eqx.__dict__.get(n_) for n_ in names}
         T.__dict__["open"] = ghost_open
         eqx.tree_serialise_leaves, eqx.tree_deserialise_leaves = ser, deser
+        eqx.filter, eqx.partition, eqx.combine, eqx.is_array, eqx.is_inexact_array = g_filter, g_partition, g_combine, IS_ARRAY, IS_INEXACT
         try:
             out = []
             for op, fn, m in history:
@@ -455,16 +483,21 @@ def ob_save_load():
             else:
                 T.__dict__["open"] = saved[0]
             eqx.tree_serialise_leaves, eqx.tree_deserialise_leaves = saved[1], saved[2]
+            for n_, v_ in saved_eqx.items():
+                if v_ is None:
+                    eqx.__dict__.pop(n_, None)
+                else:
+                    setattr(eqx, n_, v_)
         if not all(f.closed for f in events):
             return "refuted", "a file is left open", None
         return out
 
     m1, m2, m3, like = Model("m1"), Model("m2"), Model("m3"), Model("like")
     histories = {
-        "save;load": ([("save", "a.eqx", m1), ("load", "a.eqx", like)], [("like", like, ("leaves", m1))]),
-        "save;save(same file);load": ([("save", "a.eqx", m1), ("save", "a.eqx", m2), ("load", "a.eqx", like)], [("like", like, ("leaves", m2))]),
+        "save;load": ([("save", "a.eqx", m1), ("load", "a.eqx", like)], [m1]),
+        "save;save(same file);load": ([("save", "a.eqx", m1), ("save", "a.eqx", m2), ("load", "a.eqx", like)], [m2]),
         "two files interleaved": ([("save", "a.eqx", m1), ("save", "b.eqx", m2), ("load", "a.eqx", like), ("load", "b.eqx", m3), ("load", "a.eqx", m3)],
-                                  [("like", like, ("leaves", m1)), ("like", m3, ("leaves", m2)), ("like", m3, ("leaves", m1))]),
+                                  [m1, m2, m1]),
     }
     obs = []
     for nm, (h, exp) in histories.items():
@@ -472,10 +505,10 @@ def ob_save_load():
             got = run(h)
             if isinstance(got, tuple):
                 return got
-            ok = len(got) == len(exp) and all(isinstance(g, tuple) and len(g) == 3 and g[0] == "like" and g[1] is e[1] and g[2][0] == "leaves" and g[2][1] is e[2][1]
-                                              for g, e in zip(got, exp))
+            # every leaf of the loaded model -- arrays AND python-scalar fields -- is the saved model's
+            ok = len(got) == len(exp) and all(isinstance(g, Model) and g.arrays == e.arrays and g.scalars == e.scalars for g, e in zip(got, exp))
             if not ok:
-                return "refuted", f"load returned {got!r}, expected {exp!r}", None
+                return "refuted", f"load returned {got!r}; every leaf (arrays and non-array fields) must be that of {exp!r}", None
             return "proved", f"{len(h)} operations", None
         o = guard(f"C13/save->load/history={nm}/ensures:roundtrip(modulo the assumed Equinox contract)", "ensures", body, dict(history=nm))
         o["replay"] = dict(scenario="saveload")
